@@ -61,6 +61,10 @@ func init() {
 				c.assert(Eq(Eq(e, IntLit(0)), ok))
 				return []Term{Ite(ok, Term{app("parseTimeVal", a[1]), SInt}, IntLit(0)), e}
 			}},
+		"strings.Join": {reason: "strings.Join returns some string (content not interpreted)",
+			apply: func(fr *Frame, v *ssa.Call, cc *ssa.CallCommon, a []Term, at Term, st *State) []Term {
+				return []Term{fr.c.fresh("joined", SInt)}
+			}},
 		"strings.TrimSpace": {reason: "TrimSpace is idempotent, maps \"\" to \"\" and never lengthens",
 			apply: func(fr *Frame, v *ssa.Call, cc *ssa.CallCommon, a []Term, at Term, st *State) []Term {
 				return []Term{fr.c.trimSpace(a[0])}
@@ -159,6 +163,99 @@ func init() {
 					}
 				}
 			}},
+		"syscall.Open": {reason: "open(2) returns a descriptor or an error; opening read-only changes no file",
+			apply: func(fr *Frame, v *ssa.Call, cc *ssa.CallCommon, a []Term, at Term, st *State) []Term {
+				c := fr.c
+				return []Term{c.fresh("fd", SInt), c.fresh("oerr", SInt)}
+			}},
+		"syscall.Close": {reason: "close(2); closing the lock descriptor releases a flock held through it",
+			apply: func(fr *Frame, v *ssa.Call, cc *ssa.CallCommon, a []Term, at Term, st *State) []Term {
+				return []Term{fr.c.fresh("cerr", SInt)}
+			}},
+		"syscall.Flock": {reason: "flock(2): LOCK_EX is granted to at most one open file description at a time, LOCK_NB makes the call fail with EWOULDBLOCK instead of waiting, LOCK_UN releases",
+			apply: func(fr *Frame, v *ssa.Call, cc *ssa.CallCommon, a []Term, at Term, st *State) []Term {
+				c := fr.c
+				how := a[1]
+				lk, ok1 := c.ghostCell("lk")
+				ep, ok2 := c.ghostCell("epoch")
+				bl, ok3 := c.ghostCell("blocking")
+				e := c.fresh("flockerr", SInt)
+				if !(ok1 && ok2 && ok3) {
+					c.errorf("syscall.Flock needs ghost variables lk, epoch, blocking")
+					return []Term{e}
+				}
+				un := bitSet(how, 8)
+				nb := bitSet(how, 4)
+				ex := bitSet(how, 2)
+				sh := bitSet(how, 1)
+				curLk, curEp, curBl := c.get(st, lk), c.get(st, ep), c.get(st, bl)
+				okT := Eq(e, IntLit(0))
+				newLk := Ite(un, IntLit(0), Ite(okT, Ite(ex, IntLit(2), Ite(sh, IntLit(1), curLk)), curLk))
+				newEp := Ite(And(Not(un), okT), Add(curEp, IntLit(1)), curEp)
+				newBl := Or(curBl, And(Not(un), Not(nb)))
+				c.set(st, lk, newLk)
+				c.set(st, ep, newEp)
+				c.set(st, bl, newBl)
+				return []Term{e}
+			},
+			writes: func(fr *Frame, cc *ssa.CallCommon, ws map[string]bool) {
+				for _, g := range []string{"lk", "epoch", "blocking"} {
+					if cell, ok := fr.c.ghostCell(g); ok {
+						ws[cell] = true
+					}
+				}
+			}},
+		"os.IsNotExist": {reason: "a predicate on the error value",
+			apply: func(fr *Frame, v *ssa.Call, cc *ssa.CallCommon, a []Term, at Term, st *State) []Term {
+				fr.c.declareFun("osIsNotExist", []Sort{SInt}, SBool)
+				return []Term{Term{app("osIsNotExist", a[0]), SBool}}
+			}},
+		"errors.Is": {reason: "errors.Is is a reflexive relation on error values (wrapping is not interpreted)",
+			apply: func(fr *Frame, v *ssa.Call, cc *ssa.CallCommon, a []Term, at Term, st *State) []Term {
+				c := fr.c
+				c.declareFun("errIs", []Sort{SInt, SInt}, SBool)
+				r := Term{app("errIs", a[0], a[1]), SBool}
+				c.assert(Implies(Eq(a[0], a[1]), r))
+				c.assert(Implies(Eq(a[0], IntLit(0)), Eq(r, Eq(a[1], IntLit(0)))))
+				return []Term{r}
+			}},
+		"os.Stat": {reason: "stat(2): returns file information or an error; changes nothing",
+			apply: func(fr *Frame, v *ssa.Call, cc *ssa.CallCommon, a []Term, at Term, st *State) []Term {
+				c := fr.c
+				return []Term{c.fresh("finfo", SAny), c.fresh("staterr", SInt)}
+			}},
+		"invoke:IsDir": {reason: "FileInfo.IsDir is a predicate on the file information",
+			apply: func(fr *Frame, v *ssa.Call, cc *ssa.CallCommon, a []Term, at Term, st *State) []Term {
+				fr.c.declareFun("fiIsDir", []Sort{SAny}, SBool)
+				return []Term{Term{app("fiIsDir", fr.val(cc.Value)), SBool}}
+			}},
+		"os.MkdirAll": {reason: "mkdir -p: creates directories, never touches an existing regular file",
+			apply: func(fr *Frame, v *ssa.Call, cc *ssa.CallCommon, a []Term, at Term, st *State) []Term {
+				return []Term{fr.c.fresh("mkerr", SInt)}
+			}},
+		"os.Getwd": {reason: "returns the working directory or an error",
+			apply: func(fr *Frame, v *ssa.Call, cc *ssa.CallCommon, a []Term, at Term, st *State) []Term {
+				return []Term{fr.c.fresh("wd", SInt), fr.c.fresh("wderr", SInt)}
+			}},
+		"os.WriteFile": {reason: "os.WriteFile creates or truncates the named file and writes the data (ghost effect: fsWrites counts writes outside the log primitives)",
+			apply: func(fr *Frame, v *ssa.Call, cc *ssa.CallCommon, a []Term, at Term, st *State) []Term {
+				c := fr.c
+				if cell, ok := c.ghostCell("fsWrites"); ok {
+					c.set(st, cell, Add(c.get(st, cell), IntLit(1)))
+				}
+				return []Term{c.fresh("werr", SInt)}
+			},
+			writes: func(fr *Frame, cc *ssa.CallCommon, ws map[string]bool) {
+				if cell, ok := fr.c.ghostCell("fsWrites"); ok {
+					ws[cell] = true
+				}
+			}},
+		"fmt.Println": {reason: "fmt.Println writes one text line to stdout (ghost counter stdoutText)", apply: applyStdoutText, writes: writesStdoutText},
+		"fmt.Printf":  {reason: "fmt.Printf writes text to stdout (ghost counter stdoutText)", apply: applyStdoutText, writes: writesStdoutText},
+		"fmt.Print":   {reason: "fmt.Print writes text to stdout (ghost counter stdoutText)", apply: applyStdoutText, writes: writesStdoutText},
+		"fmt.Fprintln": {reason: "fmt.Fprintln writes text to its writer; os.Stdout bumps stdoutText, os.Stderr bumps stderrText", apply: applyFprint, writes: writesStdoutText},
+		"fmt.Fprintf":  {reason: "fmt.Fprintf writes text to its writer; os.Stdout bumps stdoutText, os.Stderr bumps stderrText", apply: applyFprint, writes: writesStdoutText},
+		"fmt.Fprint":   {reason: "fmt.Fprint writes text to its writer; os.Stdout bumps stdoutText, os.Stderr bumps stderrText", apply: applyFprint, writes: writesStdoutText},
 		"sort.Strings": {reason: "sort.Strings permutes the slice into ascending order",
 			apply: applySortStrings,
 			writes: func(fr *Frame, cc *ssa.CallCommon, ws map[string]bool) {
@@ -176,6 +273,19 @@ func init() {
 				}
 			}},
 	}
+}
+
+// ghostCell returns the heap cell of a ghost variable declared in the contract file.
+func (c *Enc) ghostCell(name string) (string, bool) {
+	g, ok := c.eng.cf.Ghosts[name]
+	if !ok {
+		return "", false
+	}
+	ty, err := c.eng.resolveType(g.Type)
+	if err != nil {
+		return "", false
+	}
+	return c.cellVar("G_"+name, ty), true
 }
 
 func (c *Enc) trimSpace(s Term) Term {
@@ -249,6 +359,34 @@ func (fr *Frame) encodeExtern(v *ssa.Call, cc *ssa.CallCommon, args []Term, at T
 			fr.setResultsRaw(v, res)
 		}
 		return
+	}
+	// variadic string functions (filepath.Join, ...): a deterministic function of the element values
+	if callee := cc.StaticCallee(); callee != nil && callee.Pkg != nil && callee.Signature.Variadic() {
+		pkg := callee.Pkg.Pkg.Path()
+		if (pkg == "path/filepath" || pkg == "strings") && len(cc.Args) == 1 {
+			if sl, ok := cc.Args[0].(*ssa.Slice); ok {
+				if al, ok := sl.X.(*ssa.Alloc); ok {
+					if arr, ok := al.Type().Underlying().(*types.Pointer).Elem().Underlying().(*types.Array); ok {
+						heap, es := c.elemHeap(arr.Elem())
+						inner := Select(c.get(st, heap), fr.val(al), ArraySort(SInt, es))
+						var elems []Term
+						var sorts []Sort
+						for i := int64(0); i < arr.Len(); i++ {
+							elems = append(elems, Select(inner, IntLit(i), es))
+							sorts = append(sorts, es)
+						}
+						fn := fmt.Sprintf("ext_%s_%d", sanitize(callee.String()), arr.Len())
+						rs := c.sortOf(cc.Signature().Results().At(0).Type())
+						c.declareFun(fn, sorts, rs)
+						c.trusted[name] = "deterministic function of its arguments (uninterpreted)"
+						if v != nil {
+							fr.setResultsRaw(v, []Term{{app(fn, elems...), rs}})
+						}
+						return
+					}
+				}
+			}
+		}
 	}
 	// generic pure scalar functions of string-ish packages
 	if callee := cc.StaticCallee(); callee != nil && callee.Pkg != nil {
@@ -450,3 +588,68 @@ type sortObl struct {
 }
 
 var _ = strings.TrimSpace
+
+func bumpGhost(fr *Frame, st *State, name string) {
+	c := fr.c
+	if cell, ok := c.ghostCell(name); ok {
+		c.set(st, cell, Add(c.get(st, cell), IntLit(1)))
+	}
+}
+
+func applyStdoutText(fr *Frame, v *ssa.Call, cc *ssa.CallCommon, a []Term, at Term, st *State) []Term {
+	bumpGhost(fr, st, "stdoutText")
+	return printResults(fr, cc)
+}
+
+func printResults(fr *Frame, cc *ssa.CallCommon) []Term {
+	sig := cc.Signature()
+	res := make([]Term, sig.Results().Len())
+	for i := range res {
+		res[i] = fr.c.fresh("pr", fr.c.sortOf(sig.Results().At(i).Type()))
+	}
+	return res
+}
+
+// writerTarget: "stdout", "stderr" or "" for the io.Writer argument of a Fprint* call.
+func writerTarget(v ssa.Value) string {
+	mi, ok := v.(*ssa.MakeInterface)
+	if !ok {
+		return ""
+	}
+	load, ok := mi.X.(*ssa.UnOp)
+	if !ok {
+		return ""
+	}
+	g, ok := load.X.(*ssa.Global)
+	if !ok || g.Pkg == nil || g.Pkg.Pkg.Path() != "os" {
+		return ""
+	}
+	switch g.Name() {
+	case "Stdout":
+		return "stdout"
+	case "Stderr":
+		return "stderr"
+	}
+	return ""
+}
+
+func applyFprint(fr *Frame, v *ssa.Call, cc *ssa.CallCommon, a []Term, at Term, st *State) []Term {
+	switch writerTarget(cc.Args[0]) {
+	case "stdout":
+		bumpGhost(fr, st, "stdoutText")
+	case "stderr":
+		bumpGhost(fr, st, "stderrText")
+	default:
+		// an arbitrary writer (strings.Builder, parameter): counted as possible stdout text unless proven otherwise
+		bumpGhost(fr, st, "otherText")
+	}
+	return printResults(fr, cc)
+}
+
+func writesStdoutText(fr *Frame, cc *ssa.CallCommon, ws map[string]bool) {
+	for _, g := range []string{"stdoutText", "stderrText", "otherText"} {
+		if cell, ok := fr.c.ghostCell(g); ok {
+			ws[cell] = true
+		}
+	}
+}
